@@ -10,8 +10,9 @@
   scheduling point (lock acquisition, DashMap call, atomic, Once).
 Anything not understood raises Unsupported => the check reports INCONCLUSIVE, never a verdict.
 """
-import re, time, itertools, hashlib
+import re, time, itertools, hashlib, sys
 import z3
+sys.setrecursionlimit(100000)
 from .mirparse import parse_file, Place, split_top
 
 
@@ -340,6 +341,37 @@ def norm_trait_call(g):
     return outer_ty(ty), re.sub(r'<.*', '', tr).split('::')[-1], meth, ty
 
 
+def _strip_ref(t):
+    t = t.strip()
+    while True:
+        t2 = re.sub(r"^&('\w+ )?(mut )?", '', t).strip()
+        if t2 == t: return t
+        t = t2
+
+
+def bind_params(param_ty, site_ty):
+    """{type parameter: concrete type} obtained by unifying a callee's self type (`&GlobalCache<R>`, `&GlobalCache<Result<T, E>>`,
+    `&T`, `&Self`) with the concrete self type of a call site (`GlobalCache<u64>`, `GlobalCache<Result<u64, u8>>`, `u64`)"""
+    isparam = lambda t: bool(re.match(r'^([A-Z][0-9]?|Self)$', t))
+    out = {}
+    def unify(p, sct):
+        p = _strip_ref(p); sct = _strip_ref(sct)
+        if isparam(p):
+            if not isparam(sct): out.setdefault(p, sct)
+            return
+        if p.startswith('(') and sct.startswith('('):
+            ps = split_top(p[1:-1]); ss = split_top(sct[1:-1])
+        else:
+            pm = re.search(r'<(.*)>$', p); sm = re.search(r'<(.*)>$', sct)
+            if not pm or not sm: return
+            if p[:pm.start()].split('::')[-1] != sct[:sm.start()].split('::')[-1]: return
+            ps = [t for t in split_top(pm.group(1)) if not t.strip().startswith("'")]; ss = [t for t in split_top(sm.group(1)) if not t.strip().startswith("'")]
+        if len(ps) != len(ss): return
+        for a_, b_ in zip(ps, ss): unify(a_, b_)
+    unify(param_ty, site_ty)
+    return out or None
+
+
 class Program:
     """parsed MIR of one or more crates + closure identities + function resolution"""
     def __init__(s):
@@ -416,7 +448,7 @@ class Program:
                 if len(c2) == 1: return c2[0]
                 return c[0] if tr in ('Clone', 'PartialEq', 'Debug', 'From', 'Default') else None
             # blanket impl on a type parameter
-            c = [f for (t, m2), fs in s.methods.items() if m2 == meth and len(t) <= 2 and t[:1].isupper() for f in fs]
+            c = [f for (t, m2), fs in s.methods.items() if m2 == meth and (re.match(r'^[A-Z][0-9]?$', t) or t == 'Self') for f in fs]
             if len(c) == 1: return c[0]
             c = s.traitm.get((tr, meth), [])
             if len(c) == 1: return c[0]
@@ -609,6 +641,14 @@ class Interp:
         if re.match(r'^[\w:<>{}#@ ,.\-\[\]&\'()\*/]+$', c):
             cc = strip_generics(c)
             if cc in s.p.consts: return s.eval_const(ctx, f, cc)
+            if '::' in cc and not cc.endswith(')'):
+                parts_ = cc.split('::')
+                if re.match(r'^[A-Z0-9_]+$', parts_[-1]):       # looks like a const item (e.g. a thread_local! key inside a method)
+                    for k_ in range(1, len(parts_)):
+                        suf = '::' + '::'.join(parts_[k_:])
+                        cands = [n for n, g_ in s.p.consts.items() if n.endswith(suf) and g_.tag == f.tag]
+                        if len(cands) == 1: return s.eval_const(ctx, f, cands[0])
+                        if len(cands) > 1: break
             return FnItem(c)
         raise Unsupported('const ' + c[:80])
 
@@ -653,6 +693,14 @@ class Interp:
                 # verbose names are crate-qualified ("vsubjects::g::{closure#0}")
                 short = name.split('::', 1)[1] if '::' in name else name
                 c = [n for n in s.p.fns if n == short]
+                if len(c) != 1:
+                    # methods: verbose names say `Type::method::{closure#k}`, items say `<impl at ..>::method::{closure#k}`
+                    parts_ = name.split('::'); c = []
+                    for k_ in range(1, len(parts_)):
+                        tail = '::'.join(parts_[k_:])
+                        if tail.startswith('{'): break
+                        c = [n for n, g_ in s.p.fns.items() if n.endswith('::' + tail) and g_.tag == f.tag and '<impl at' in n]
+                        if len(c) == 1: break
                 if len(c) == 1: name = c[0]
                 else: raise Unsupported('closure fn not found: ' + name)
         if ty.startswith('{coroutine') or 'async' in ty.split('@')[0]: return Coroutine(name, upvars)
@@ -816,7 +864,7 @@ class Interp:
         o = outer_ty(ty)
         if o in ('Vec', 'String', 'VecDeque') and o != 'VecDeque': return 24
         if o in ('Box', 'Arc', 'Rc'): return 8
-        if re.match(r'^[A-Z]\w?$', ty) or ty == 'Self':
+        if re.match(r'^[A-Z][0-9]?$', ty) or ty == 'Self':
             # a type parameter: symbolic constant (the same for every occurrence on this path)
             v = z3.Int('sizeof_' + ty)
             if ('sizeof', ty) not in ctx.notes:
@@ -863,6 +911,14 @@ class Interp:
             h = s.env.get('Gate::poll')
             if h is None: raise Unsupported('Gate::poll without a model')
             return h(ctx, args)
+        # type parameters bound at a monomorphic call site further up (e.g. GlobalCache::<u64>::insert -> R := u64)
+        if tc and ctx.tysubst and re.match(r'^[A-Z][0-9]?$', tc[3].strip()):
+            for sub in reversed(ctx.tysubst):
+                if tc[3].strip() in sub:
+                    conc = sub[tc[3].strip()]
+                    func = '<' + conc + func[func.index(' as '):]
+                    g = strip_generics(func); tc = norm_trait_call(g)
+                    break
         # 2. repository code with MIR for exactly this receiver type wins over builtin models
         f = None
         if tc:
@@ -876,11 +932,20 @@ class Interp:
             f = s.p.resolve(func)
         if f is None: raise Unsupported('call to unmodelled function ' + func[:200])
         pushed = False
-        if tc and f.args:
-            # blanket impl on a type parameter: remember what the parameter stands for (used by formatting)
-            pty = outer_ty(f.locals[f.args[0]].ty)
-            if len(pty) <= 2 and pty[:1].isupper():
-                ctx.tysubst.append({pty: tc[3]}); pushed = True
+        if f.args:
+            # bind the callee's type parameters to the concrete types named at this call site
+            # (inherent method `T::<u64>::m`, trait method `<Result<u64, u8> as Tr>::m`, blanket impl / default method on `Self`)
+            site_ty = None
+            if tc: site_ty = tc[3].strip()
+            else:
+                mm = re.search(r'((?:\w+::)*[A-Z]\w*::<.*?>)::\w+$', func)
+                if mm: site_ty = mm.group(1).replace('::<', '<')
+            if site_ty is not None:
+                from .builtins import subst_type
+                site_ty = subst_type(ctx, site_ty)
+                b = bind_params(f.locals[f.args[0]].ty, site_ty)
+                if b:
+                    ctx.tysubst.append(b); pushed = True
         try:
             r = yield from s.call_fn(ctx, f, args)
         finally:
@@ -923,9 +988,12 @@ class Interp:
             sf = s.p.statics.get(name)
             if sf is None:
                 # allocation tables name statics inside impl blocks by type ("T::f::S"), items by impl span ("<impl at ..>::f::S")
-                suf = '::'.join(name.split('::')[-2:])
-                c = [f_ for n_, f_ in s.p.statics.items() if n_.endswith('::' + suf) and f_.tag == tag]
-                if len(c) == 1: sf = c[0]
+                parts_ = name.split('::')
+                for k_ in range(1, len(parts_)):
+                    suf = '::'.join(parts_[k_:])
+                    c = [f_ for n_, f_ in s.p.statics.items() if n_.endswith('::' + suf) and f_.tag == tag]
+                    if len(c) == 1: sf = c[0]; break
+                    if len(c) > 1: break
             if sf is None: raise Unsupported('static ' + name)
             cell.v = ('initialising', name)
             v = yield from s.call_fn(ctx, sf, [])
